@@ -47,6 +47,7 @@ pub fn registry() -> Vec<Contract> {
     v.extend(crate::verif_exec_e2e::contracts());
     v.extend(crate::verif_exec_proofs::contracts());
     v.extend(crate::verif_exec_crash::contracts());
+    v.extend(crate::verif_exec_misc::contracts());
     v
 }
 
